@@ -110,9 +110,10 @@ def _run(ctx, pq):
 
     # ---------------------------------------------------------------- A: path_string / "%s" % val
     n_a = 250 if quick else 2500
-    cmds, meta = [], []
+    cmds, meta, vals_a = [], [], []
     for _ in range(n_a):
         v, k = rand_typed_value(rng)
+        vals_a.append(v)
         hive = rng.random() < 0.6
         cmds.append(("path_string", hive, L.model_value(v)))
         impl = util.path_string(v) if hive else "%s" % v
@@ -121,6 +122,22 @@ def _run(ctx, pq):
         ctx.case(case)
         ctx.count("A.kind", k)
         ctx.correspondence("show ~ util.path_string / '%s' % val", case, bytes(mo).decode("utf-8", "replace"), impl)
+    # the hypothesis of C08_multiset_hive that is NOT proved (floats, timestamps) and, as a cross-check, the proved
+    # ones, evaluated with the real functions: val_from_meta(path_string(v), metadata of v's dtype) == v, same kind
+    for v in vals_a:
+        c = L.canon(v)
+        m = {"i": {"pandas_type": "int64", "numpy_type": "uint64" if isinstance(v, np.uint64) else "int64"},
+             "b": {"pandas_type": "bool", "numpy_type": "bool"}, "f": {"pandas_type": "float64", "numpy_type": "float64"},
+             "t": {"pandas_type": "datetime", "numpy_type": "datetime64[%s]" % (getattr(v, "unit", "ns"))},
+             "s": {"pandas_type": "unicode", "numpy_type": "object"}}[c[0]]
+        try:
+            back = L.canon(util.val_from_meta(util.path_string(v), m))
+        except Exception as e:      # noqa
+            back = ["raises", type(e).__name__]
+        ctx.obligation_count = getattr(ctx, "obligation_count", 0) + 1
+        if back != c:
+            ctx.fail({"component": "val_from_meta(path_string(v))", "kind": c[0]}, {"value": c, "meta": m},
+                     "text round trip of a partition value: %r -> %r -> %r" % (c, util.path_string(v), back))
 
     # ---------------------------------------------------------------- B: val_from_meta
     n_b = 500 if quick else 5000
